@@ -174,6 +174,11 @@ Definition chain_rule (c : cfg) (ht : N) (ph h : hdr) : rres :=
   end.
 
 (** * Oracle majority (validator.rs [validate_block]) *)
+(** The proof carries the key identities of its attestations ([attesters], in order, repeats
+    possible: txoo checks every attestation by itself); the model computes the quorum itself.
+    What is counted are the trusted oracles for which the proof carries at least one
+    attestation -- an oracle whose attestation is repeated counts once -- against
+    (number of trusted oracles + 1) / 2. *)
 Definition attests (p : proofinfo) (k : N) : bool := existsb (N.eqb k) (attesters p).
 Definition key_matches (c : cfg) (p : proofinfo) : N :=
   N.of_nat (length (filter (attests p) (trusted c))).
